@@ -178,6 +178,10 @@ inductive Op
   /-- a fabric-scoped write whose content the model does not track (group key map): the fabric record
   is stored, or the store is deferred, exactly as for an ACL write -/
   | fwrite (s : Nat)
+  /-- `SetVIDVerificationStatement` (vendor id / statement / VVSC of the accessing fabric; the model does
+  not track these fields): the fabric record is stored at once unless it carries staged changes of the
+  armed fail-safe - a NOC command or a deferred fabric-scoped write - with which the change rides along -/
+  | vvs (s : Nat)
   | tick (secs : Nat)
   | poll
   | flush
@@ -312,6 +316,14 @@ def checkArmed (n : Node) (mode : Mode) : Option String :=
 def armedFor (n : Node) (idx : Nat) : Bool :=
   match n.fs with
   | some a => a.fab == idx
+  | none => false
+
+/-- `FailSafe::has_pending_changes_for` (failsafe.rs, as repaired): the fail-safe is armed for the fabric
+and its record in memory carries staged changes - `AddNOC` / `UpdateNOC` was received in this context,
+or a fabric-scoped write was deferred -/
+def pendingFor (n : Node) (idx : Nat) : Bool :=
+  match n.fs with
+  | some a => a.fab == idx && (a.deferred || a.flags.addNoc || a.flags.updNoc)
   | none => false
 
 /-- `FailSafe::defers_store_for` when it answers `true`: the context remembers the deferred change -/
@@ -700,6 +712,18 @@ def sessOp (cfg : Cfg) (n : Node) (sid : Nat) (mode : Mode) : Op → Node × Sta
         else match storeFabric n f with
           | (n, true) => ok n
           | (n, false) => (n, .err "NoSpace")
+  | .vvs _ =>
+    -- noc.rs `handle_set_vid_verification_statement` (as repaired): the fields are set, then the record
+    -- is stored at once - unless it carries staged changes of the armed fail-safe (a NOC command, a
+    -- deferred write): then nothing is stored, CommissioningComplete / the expiry decide
+    if mode.fab = 0 then (n, .err "UnsupportedAccess")
+    else match getFabric n mode.fab with
+      | none => (n, .err "NotFound")
+      | some f =>
+        if pendingFor n f.idx then ok n
+        else match storeFabric n f with
+          | (n, true) => ok n
+          | (n, false) => (n, .err "NoSpace")
   | _ => (n, .err "bad")
 
 /-- `Matter::factory_reset` (lib.rs, as repaired) + the network part of `InteractionModelState::reset_persist`
@@ -726,7 +750,7 @@ def factoryReset (n : Node) : Node × Status :=
 def isSessOp : Op → Option Nat
   | .openW s | .arm s _ | .csr s _ | .root s _ | .addnoc s _ _ _ _ _ | .updnoc s _ _ | .acl s _
   | .grp s _ | .label s _ | .net s _ | .rmnet s _ | .complete s | .rmfab s _ | .revoke s
-  | .bcw s _ | .ext s | .fwrite s => some s
+  | .bcw s _ | .ext s | .fwrite s | .vvs s => some s
   | _ => none
 
 def step (cfg : Cfg) (n : Node) (op : Op) : Node × Status :=
